@@ -16,7 +16,7 @@ RULE = ("schemas with constant, callable and absent defaults on every field fami
         "mutations: after each step the values AND the user-defined flag of every path (all depths, list items) are "
         "compared with a prediction computed from the state observed before the step; non-trivial = >= 1 accepted "
         "assignment, >= 1 rejected one and >= 1 reset judged; distinct = distinct (schema, history)")
-REQUIRED = ("dotted_status_queries", "schemas_with_unnormalised_defaults", "fresh_default_checks", "callable_default_checks", "flag_maps_compared", "accepted_assignments_judged",
+REQUIRED = ("dynamic_sections_reset_after_runtime_fields", "callable_object_defaults", "dotted_status_queries", "schemas_with_unnormalised_defaults", "fresh_default_checks", "callable_default_checks", "flag_maps_compared", "accepted_assignments_judged",
             "rejected_ops_judged", "resets_judged", "loads_judged")
 ASSUMPTIONS = ["in-place mutation of a default list/dict does not make it user-defined (the statement says 'assigned or "
                "loaded')", "loads that fail are not judged (their partial effect is unspecified)"]
@@ -28,7 +28,7 @@ def _add_callables(rng, node):
         if ch["kind"] in ("schema", "ctype"):
             _add_callables(rng, ch)
         elif "default" in ch.get("params", {}) and ch["family"] not in ("challenge",) and rng.random() < 0.35:
-            ch["params"]["default_callable"] = True
+            ch["params"]["default_callable"] = rng.choice([True, True, "partial", "object"])
 
 
 RAW_FAMILIES = ("str", "loglevel", "appmode", "int", "float", "port", "bool", "ipv4", "net", "host", "url", "bytes")
@@ -58,7 +58,7 @@ def _add_raw_defaults(rng, node, env):
 def generate(rng, ctx):
     thorough = ctx.tier == "thorough"
     schema = gen.gen_schema(rng, depth=rng.choice([1, 2, 3] if thorough else [1, 2, 2]), width=rng.choice([3, 4, 5]),
-                            defaults=0.8)
+                            defaults=0.8, dynamic=0.25)
     env = gen.GEN_ENV
     raw = _add_raw_defaults(rng, schema, env)
     _add_callables(rng, schema)
@@ -78,6 +78,13 @@ def generate(rng, ctx):
             if nodes:
                 p, _nd = rng.choice(nodes)
                 out.append({"op": "reset", "path": p, "route": rng.choice(["parent", "dotted"])})
+    # dynamic sections: a field the schema does not declare is added at run time, then the SECTION is reset
+    for p, nd in history.all_paths(schema):
+        if nd["kind"] == "schema" and nd.get("dynamic") and "[]" not in p and rng.random() < 0.8:
+            at = rng.randrange(len(out) + 1)
+            out[at:at] = [{"op": "set", "route": "attr", "path": p + "." + rng.choice(["extra1", "zz9"]), "value": rng.choice([1, "x", [1, 2]]),
+                           "dynamic": True},
+                          {"op": "reset", "path": p, "route": rng.choice(["parent", "dotted"]), "after_dynamic": True}]
     return {"schema": schema, "ops": out, "raw_defaults": raw}
 
 
@@ -148,6 +155,9 @@ def run(case, ctx, res):
         if d:
             res.viol("M-fresh", "dotted-status", "%s fresh configuration: %s" % (which, d))
             return
+    for path, nd in history.all_paths(case["schema"]):
+        if nd["kind"] == "field" and nd.get("params", {}).get("default_callable") in ("partial", "object"):
+            res.count("callable_object_defaults")
     for path, n in drv.built.calls.items():
         res.count("callable_default_checks")
         if n < 2:
@@ -204,6 +214,8 @@ def run(case, ctx, res):
         elif kind == "reset":
             resets += 1
             res.count("resets_judged")
+            if op.get("after_dynamic"):
+                res.count("dynamic_sections_reset_after_runtime_fields")
         elif kind in ("load_tree", "loads"):
             res.count("loads_judged")
         else:
